@@ -923,7 +923,8 @@ func c07Prelude(r *simrt.Rand, p *c07Pair) [][]string {
 	var out [][]string
 	goOpts := []string{"gen_setter,reorder_fields,package_prefix=example.com/c07", "naming_style=golint,ignore_initialisms", "template=slim,gen_deep_equal=false",
 		"with_reflection,with_field_mask", "keep_unknown_fields,json_enum_as_text,nil_safe", "trim_idl,use_type_alias", "naming_style=apache,compatible_names,snake_style_json_tag",
-		"ignore_initialisms", "ignore_initialisms,gen_setter", "naming_style=apache,ignore_initialisms"}
+		"ignore_initialisms", "ignore_initialisms,gen_setter", "naming_style=apache,ignore_initialisms",
+		"with_reflection,with_field_mask,field_mask_zero_required", "with_field_mask,field_mask_zero_required,field_mask_halfway"}
 	n := 1 + r.Intn(3)
 	for i := 0; i < n; i++ {
 		switch r.Intn(5) {
